@@ -73,9 +73,17 @@ class HFilter:
         self.fail = fail              # items for which the filter raises
         self.fail_after = fail_after  # item -> outputs produced before raising
         self.log_lines = log_lines
+        self.prior_fail = ()
 
     def filter(self, item):
         s = cur_sim()
+        if item >= PRIOR:
+            # an item of the EARLIER call on the same Multiprocessor instance (see "prior" in gen): one output, or the earlier call's failure
+            s.yield_("filter-prior")
+            if item - PRIOR in self.prior_fail:
+                s.count("fault.prior_call_filter_raise")
+                raise Boom(item)
+            return [("Q", item)]
         s.user["c08_seen"].append((s.current.pid, item))
         if item in self.plain:
             s.yield_("filter-plain")
@@ -106,6 +114,7 @@ class HFilter:
 
 
 FALSY = (0, "", (), False, 0.0)
+PRIOR = 1000
 
 
 def out_value(item, j, falsy):
@@ -164,7 +173,8 @@ class C08:
              "thorough": {"runs": 600000, "budget_s": 840, "chunk": 100, "twice_every": 50, "shrink_s": 120}}
     rule = ("one run = one (workload, configuration, fault plan, schedule) drawn from splitmix64(VERIF_SEED, index): "
             "n items 0-14, n_processes 1-5, maxtasksperchild 0-4, read_wait, Multiprocessor or CobaMultiprocessor, "
-            "per-item output counts 0-3 / plain values, failing item subset, consumer reads all or abandons after k; "
+            "per-item output counts 0-3 / plain values, failing item subset, consumer reads all or abandons after k, optionally an earlier "
+            "(failing / abandoned / complete) call on the same instance; "
             "a run is non-trivial when worker processes were started and the baton moved between tasks; "
             "distinct = distinct event-log digest (every primitive operation with task id + every scheduler choice)")
     assumptions = [
@@ -219,7 +229,18 @@ class C08:
             if kind in ("abandon", "both"):
                 tot = sum(outs)
                 consumer = {"mode": "abandon", "k": rng.randrange(0, max(1, tot))}
+        # one run in seven first makes an EARLIER call on the same Multiprocessor instance (which fails or completes); the call that is
+        # judged is the second one: "every call" of the statement includes calls on an instance that has been used before.
+        # (Not generated: an earlier call that was ABANDONED. Its workers stay blocked on the input queue for good - daemons, by design - and
+        # their late callbacks share self._n_procs/_exceptions with the next call; the property quantifies over the schedules of one call,
+        # not over histories of calls with live stragglers. See DESIGN 10.8.)
+        prior = None
+        if rng.random() < 0.15 and not coba_mp:
+            pn = 1 + rng.randrange(5)
+            pk = weighted(rng, [("raise", 4), ("all", 1)])
+            prior = {"n": pn, "fail": sorted(rng.sample(range(pn), 1 + rng.randrange(min(2, pn)))) if pk == "raise" else [], "abandon": None}
         return {
+            "prior": prior,
             "n_items": n_items, "n_procs": n_procs, "mtpc": mtpc, "read_wait": rng.random() < 0.3 and not coba_mp,
             "coba_mp": coba_mp, "outs": outs, "plain": plain, "falsy": falsy, "fail": fail, "fail_after": fail_after,
             "consumer": consumer, "items_as": weighted(rng, [("list", 3), ("iter", 1)]),
@@ -277,6 +298,20 @@ class C08:
                 mp = CobaMultiprocessor(f, cfg["n_procs"], cfg["mtpc"])
             else:
                 mp = Multiprocessor(f, cfg["n_procs"], cfg["mtpc"], cfg["read_wait"])
+            pr = cfg.get("prior")
+            if pr:
+                f.prior_fail = set(pr["fail"])
+                sim.count("reach.earlier_call_on_same_instance")
+                try:
+                    pit = iter(mp.filter([PRIOR + i for i in range(pr["n"])]))
+                    if pr["abandon"] is None:
+                        obs["prior_got"] = list(pit)
+                    else:
+                        obs["prior_got"] = [next(pit) for _ in range(pr["abandon"])]
+                        pit.close()
+                except Exception as e:
+                    obs["prior_exc"] = e
+                sim.user["c08_seen"].clear()
             g = mp.filter(items)
             try:
                 if cfg["consumer"]["mode"] == "all":
@@ -388,6 +423,11 @@ class C08:
                 if c["consumer"]["mode"] == "abandon":
                     c["consumer"]["k"] = min(c["consumer"]["k"], max(0, sum(c["outs"]) - 1))
                 yield c
+        if cfg.get("prior"):
+            c = copy.deepcopy(cfg); c["prior"] = None; yield c
+            if cfg["prior"]["n"] > 1 and cfg["prior"]["abandon"] is None:
+                c = copy.deepcopy(cfg); c["prior"]["n"] -= 1
+                c["prior"]["fail"] = [i for i in c["prior"]["fail"] if i < c["prior"]["n"]] or ([0] if cfg["prior"]["fail"] else []); yield c
         if cfg["n_procs"] > 1:
             c = copy.deepcopy(cfg); c["n_procs"] -= 1; yield c
         if cfg["mtpc"] > 1:
